@@ -43,6 +43,10 @@ def main() -> int:
     import warnings
 
     warnings.simplefilter("ignore")
+    if os.environ.get("VERIF_DEBUG") != "1":
+        # the ANTLR console error listener writes every syntax error to stderr
+        sys.stderr.flush()
+        os.dup2(os.open(os.devnull, os.O_WRONLY), 2)
     try:
         mod = importlib.import_module(f"vf.checks.{a.check.lower()}")
     except ModuleNotFoundError as e:
